@@ -322,6 +322,10 @@ func c12Run(c *fw.Ctx) {
 		run(c12Case{Setup: preset, Program: append([][]string{bad}, readback...)}, "odd-pair-list")
 		run(c12Case{Program: append([][]string{bad}, readback...)}, "odd-pair-list")
 	}
+	// 9d. lengths and ranges count BYTES: values with multi-byte sequences and invalid UTF-8
+	for _, v := range []string{"h\xc3\xa9llo", "\xe6\x97\xa5\xe6\x9c\xac\xe8\xaa\x9e", "a\xf0\x9f\x98\x80b", "\xff\xfe", "\xc3", "e\xcc\x81"} {
+		run(c12Case{Setup: [][]string{{"SET", "k", v}, {"HSET", "h", "f", v}}, Program: [][]string{{"STRLEN", "k"}, {"HSTRLEN", "h", "f"}, {"GETRANGE", "k", "0", "-1"}, {"GETRANGE", "k", "1", "2"}, {"GETRANGE", "k", "-2", "-1"}, {"SUBSTR", "k", "0", "0"}, {"APPEND", "k", ""}, {"APPEND", "k", v}, {"STRLEN", "k"}}}, "multi-byte")
+	}
 	// 10. CONFIG SET / GET
 	c12Config(c)
 }
